@@ -29,6 +29,9 @@ type bTreeContainers struct {
 func newBTreeContainers() *bTreeContainers {
 	return &bTreeContainers{
 		tree: treeNew(),
+		// definitely-invalid key: nothing has been looked up yet, so
+		// key 0 must not hit the (nil) lookaside container.
+		lastKey: ^uint64(0),
 	}
 }
 
@@ -94,7 +97,16 @@ type updater struct {
 
 func (btc *bTreeContainers) PutContainerValues(key uint64, typ byte, n int, mapped bool) {
 	a := updater{key, int32(n), typ, mapped}
+	btc.invalidateLast()
 	btc.tree.Put(key, a.update)
+}
+
+// invalidateLast forgets the lookaside container. It must be called by every
+// operation that can replace a container in the tree behind the lookaside's
+// back, otherwise Get/GetOrCreate keep returning the replaced container.
+func (btc *bTreeContainers) invalidateLast() {
+	btc.lastKey = ^uint64(0)
+	btc.lastContainer = nil
 }
 
 func (btc *bTreeContainers) Remove(key uint64) {
@@ -218,6 +230,7 @@ func (btc *bTreeContainers) Repair() {
 // (new-container, write). If write is true, the container is used to
 // replace the given container.
 func (btc *bTreeContainers) Update(key uint64, fn func(*Container, bool) (*Container, bool)) {
+	btc.invalidateLast()
 	btc.tree.Put(key, fn)
 }
 
@@ -225,6 +238,7 @@ func (btc *bTreeContainers) Update(key uint64, fn func(*Container, bool) (*Conta
 // (new-container, write). If write is true, the container is used to
 // replace the given container.
 func (btc *bTreeContainers) UpdateEvery(fn func(uint64, *Container, bool) (*Container, bool)) {
+	btc.invalidateLast()
 	e, _ := btc.tree.Seek(0)
 	// currently not handling the error from this, but in practice it has
 	// to be io.EOF.
